@@ -45,9 +45,7 @@ TRANSLATE_FALLBACK = ("every source fact read here (other than the documentation
 FACTS_SNAPSHOT = os.path.join(os.path.dirname(os.path.abspath(__file__)), "c04_facts.json")
 
 
-def _strip(src):
-    src = re.sub(r"/\*.*?\*/", "", src, flags=re.S)
-    return re.sub(r"//[^\n]*", "", src)
+from props import _tutil as TU
 
 
 def _const(src, tok):
@@ -65,64 +63,65 @@ def _read_arms(m):
     if not pe:
         return None, []
     body = pe.group(1)
-    if not re.search(r"_\s*=>\s*false", body):
-        return None, []
-    arms, hard = set(), []
     tup = r"\(\s*PathRule::\w+\(\w+\)\s*,\s*PathRule::\w+\(\w+\)\s*\)"
     arm = re.compile(r"((?:%s\s*\|?\s*)+)=>\s*([^,]+)," % tup)
     found = arm.findall(body)
-    if not found or "PathRule::" in arm.sub("", body):
-        return None, []
+    if not found:
+        return None, []          # not a match over pairs of variants at all: another way of writing equality
+    hard = []
+    if "PathRule::" in arm.sub("", body) or not re.search(r"_\s*=>\s*false", body):
+        return set(), ["router/mod.rs: impl PartialEq for PathRule: the match over variant pairs is there but has arms this "
+                       "reader does not understand (found but different)"]
+    arms = set()
     for pats, rhs in found:
         rhs = rhs.strip()
         for a, x, b, y in re.findall(r"PathRule::(\w+)\((\w+)\)\s*,\s*PathRule::(\w+)\((\w+)\)", pats):
             same = re.fullmatch(r"(\w+)(\.as_str\(\))? == (\w+)(\.as_str\(\))?", rhs)
             if a == b and same and {same.group(1), same.group(3)} == {x, y}:
                 arms.add(a)
-            elif a == b and rhs == "true":
-                hard.append("router/mod.rs: PathRule equality arm (%s, %s) ignores the value" % (a, b))
             else:
-                return None, []
+                hard.append("router/mod.rs: PathRule equality arm (%s, %s) => %s is not `value == value` of one variant" % (a, b, rhs))
     return arms, hard
 
 
 def _read_ranks(m):
-    pats = (("equals", r"PathRuleResult::Equals\s*=>\s*\(\s*(\w+)\s*,\s*0\s*\)"),
-            ("regex", r"PathRuleResult::Regex\s*=>\s*\(\s*(\w+)\s*,\s*0\s*\)"),
-            ("prefix", r"PathRuleResult::Prefix\(\s*(\w+)\s*\)\s*=>\s*\(\s*(\w+)\s*,\s*\1\s*\)"),
-            ("m_equals", r"MethodRuleResult::Equals\s*=>\s*(\w+)\s*,"), ("m_all", r"MethodRuleResult::All\s*=>\s*(\w+)\s*,"))
-    ranks = {}
-    for name, pat in pats:
+    """-> dict | None (arms not found at all) ; raises ValueError(text) when found but not a number / constant"""
+    pats = (("equals", r"PathRuleResult::Equals\s*=>\s*\(\s*(\w+)\s*,\s*0\s*\)", r"PathRuleResult::Equals\s*=>\s*\("),
+            ("regex", r"PathRuleResult::Regex\s*=>\s*\(\s*(\w+)\s*,\s*0\s*\)", r"PathRuleResult::Regex\s*=>\s*\("),
+            ("prefix", r"PathRuleResult::Prefix\(\s*(\w+)\s*\)\s*=>\s*\(\s*(\w+)\s*,\s*\1\s*\)", r"PathRuleResult::Prefix\(\s*\w+\s*\)\s*=>\s*\("),
+            ("m_equals", r"MethodRuleResult::Equals\s*=>\s*(\w+)\s*,", r"MethodRuleResult::Equals\s*=>\s*\w"),
+            ("m_all", r"MethodRuleResult::All\s*=>\s*(\w+)\s*,", r"MethodRuleResult::All\s*=>\s*\w"))
+    ranks, missing = {}, 0
+    for name, pat, loc in pats:
         mm = re.search(pat, m)
         if not mm:
-            return None
+            if re.search(loc, m):
+                raise ValueError("the arm giving the rank of %s is there but is not `(number, 0)` / `(number, size)` / `number`" % name)
+            missing += 1
+            continue
         v = _const(m, mm.group(mm.lastindex))
         if v is None:
-            return None
+            raise ValueError("the rank of %s is `%s`, which is neither a literal nor a constant of the file" % (name, mm.group(mm.lastindex)))
         ranks[name] = v
+    if missing == len(pats):
+        return None
+    if missing:
+        raise ValueError("only some of the five rank arms can be read")
     return ranks
-
-
-def _fact(fails, src, where, what, ok, bad=()):
-    for pat in bad:
-        if re.search(pat, src, re.S):
-            fails.append("%s: %s -- the source now reads otherwise (/%s/)" % (where, what, pat))
-            return
-    if not any(re.search(pat, src, re.S) for pat in ok):
-        fails.append("unreadable: %s: cannot recognise the construct; the model assumes: %s" % (where, what))
 
 
 def translate():
     """T-table: the arms of PathRule's PartialEq and the rank numbers of the selection loop are read from the
-    source into coq/C04/Gen.v (named constants resolved; comments, local names and layout free).  The other facts
-    the model mirrors are read by meaning; a construct that is not recognised is `unreadable:` (soft, see
-    TRANSLATE_FALLBACK) and Gen.v then comes from the committed snapshot props/c04_facts.json; a recognised
-    construct that says something else than the model is a hard failure."""
+    source into coq/C04/Gen.v (named constants and or-patterns resolved; comments, local names and layout free).
+    The other facts the model mirrors are read where they live (props/_tutil.py): a construct that is found but
+    reads otherwise is a hard failure; one that is not found at all is `unreadable:` only for the facts declared
+    soft (SOFT_TESTED: a breaking variant in an unrecognisable spelling was seen to exit 1 through the
+    correspondence run), Gen.v then coming from the committed snapshot props/c04_facts.json."""
     import json
     fails = []
     try:
-        m = _strip(_src("lib/src/router/mod.rs"))
-        t = _strip(_src("lib/src/router/pattern_trie.rs"))
+        m = TU.strip(_src("lib/src/router/mod.rs"))
+        t = TU.strip(_src("lib/src/router/pattern_trie.rs"))
         doc = _src("doc/configure.md")
     except OSError as ex:
         return ["router sources cannot be read: %r" % (ex,)]
@@ -130,13 +129,17 @@ def translate():
     arms, hard = _read_arms(m)
     fails += hard
     if arms is None:
-        fails.append("unreadable: router/mod.rs: impl PartialEq for PathRule is not in a form the translator reads; "
+        fails.append("unreadable: router/mod.rs: impl PartialEq for PathRule is not a match over variant pairs; "
                      "the model assumes the arms %s" % snap["arms"])
         arms = set(snap["arms"])
-    ranks = _read_ranks(m)
+    try:
+        ranks = _read_ranks(m)
+    except ValueError as ex:
+        fails.append("router/mod.rs: selection loop: %s" % ex)
+        ranks = snap["ranks"]
     if ranks is None:
-        fails.append("unreadable: router/mod.rs: the rank numbers of the selection loop (PathRuleResult::{Equals,Regex,Prefix} "
-                     "and MethodRuleResult::{Equals,All} arms) cannot be read; the model assumes %s" % snap["ranks"])
+        fails.append("router/mod.rs: the rank arms of the selection loop (PathRuleResult::{Equals,Regex,Prefix}, "
+                     "MethodRuleResult::{Equals,All}) are not found; the model assumes %s" % snap["ranks"])
         ranks = snap["ranks"]
     gen = ("(* GENERATED by props/c04.py:translate from lib/src/router/mod.rs -- do not edit *)\n"
            "Definition path_eq_arm_prefix : bool := %s.\nDefinition path_eq_arm_regex : bool := %s.\n"
@@ -150,44 +153,85 @@ def translate():
     for pat, what in DOC_PINS:
         if not re.search(pat, doc, re.S):
             fails.append("doc/configure.md: " + what)
-    W = r"[A-Za-z_][A-Za-z0-9_]*"
+    F = TU.fact
+    add, rem = TU.fn_body(m, "add_tree_rule"), TU.fn_body(m, "remove_tree_rule")
+    own = r"domain_lookup_mut\([^;{]*?\)\s*\.filter\(\|\(%(W)s, _\)\|\s*%(W)s(\.as_slice\(\))?\s*==\s*&?%(W)s(\.as_bytes\(\))?\)"
+    F(fails, add, "router/mod.rs add_tree_rule", "only the leaf stored under the hostname itself is used", r"domain_lookup_mut\(", [own], 1)
+    F(fails, rem, "router/mod.rs remove_tree_rule", "only the leaf stored under the hostname itself is used (removal and its debug check)",
+      r"domain_lookup_mut\(", [own], 2)
+    F(fails, rem, "router/mod.rs remove_tree_rule", "exactly the rules with that (path, method) are dropped", r"\.retain\(",
+      [r"\.retain\(\|\(%(W)s, %(W)s, _\)\|\s*%(W)s\s*!=\s*%(W)s\s*\|\|\s*%(W)s\s*!=\s*%(W)s\)",
+       r"\.retain\(\|\(%(W)s, %(W)s, _\)\|\s*!\(\s*%(W)s\s*==\s*%(W)s\s*&&\s*%(W)s\s*==\s*%(W)s\s*\)\)"], 1, soft=True)
+    F(fails, add, "router/mod.rs add_tree_rule", "a duplicate (path, method) is refused", r"if\s+!\s*%(W)s\s*\.iter\(\)\s*\.any\(",
+      [r"if\s+!\s*%(W)s\s*\.iter\(\)\s*\.any\(\|\(%(W)s, %(W)s, _\)\|\s*%(W)s\s*==\s*%(W)s\s*&&\s*%(W)s\s*==\s*%(W)s\)"], 1)
+    F(fails, add, "router/mod.rs add_tree_rule", "a hostname the trie refuses answers false", r"domain_insert\(",
+      [r"domain_insert\([^;]*?\)\s*==\s*InsertResult::Failed\s*\{[^}]*return false", r"match[^;{]*domain_insert\([^;]*?\{[^}]*InsertResult::Failed\s*=>\s*(\{\s*)?return false"], 1)
+    F(fails, m, "router/mod.rs lookup", "the tree is walked accepting wild-cards", r"\.lookup_with_path\(", [r"\.lookup_with_path\(\s*%(W)s\s*,\s*true\s*,"], 1)
+    F(fails, m, "router/mod.rs selection", "a rule whose path does not match is skipped", r"PathRuleResult::None\s*=>", [r"PathRuleResult::None\s*=>\s*continue"], 1)
+    F(fails, m, "router/mod.rs selection", "a rule whose method does not match is skipped", r"MethodRuleResult::None\s*=>", [r"MethodRuleResult::None\s*=>\s*continue"], 1)
+    F(fails, m, "router/mod.rs selection", "a rule replaces the current best only when its rank is strictly greater (first of equals kept)",
+      r"%(W)s\.is_none\(\)\s*\|\|", [r"%(W)s\.is_none\(\)\s*\|\|\s*%(W)s\s*>\s*%(W)s\s*\{", r"%(W)s\.is_none\(\)\s*\|\|\s*%(W)s\s*<\s*%(W)s\s*\{"], 1, soft=True)
+    # the rank tuple is (kind, prefix length, method), in that order: names followed from their bindings
+    k = re.search(r"let\s+\(\s*(%s)\s*,\s*(%s)\s*\)\s*=\s*match\s+%s\.matches\(" % (TU.W, TU.W, TU.W), m)
+    mr = re.search(r"let\s+(%s)\s*=\s*match\s+%s\.matches\(" % (TU.W, TU.W), m)
+    tp = re.search(r"let\s+%s\s*=\s*\(\s*(%s)\s*,\s*(%s)\s*,\s*(%s)\s*\)\s*;" % (TU.W, TU.W, TU.W, TU.W), m)
+    if k and mr and tp:
+        if (tp.group(1), tp.group(2), tp.group(3)) != (k.group(1), k.group(2), mr.group(1)):
+            fails.append("router/mod.rs selection: the rank tuple is (%s, %s, %s), the model assumes (kind, prefix length, method) = (%s, %s, %s)"
+                         % (tp.group(1), tp.group(2), tp.group(3), k.group(1), k.group(2), mr.group(1)))
+    else:
+        fails.append("unreadable: router/mod.rs selection: the rank tuple (kind, prefix length, method) and the bindings of its components are not found")
+    conv = TU.fn_body(m, "convert_regex_domain_rule")
+    F(fails, conv, "router/mod.rs convert_regex_domain_rule", "the loop stops (None) when nothing follows the last '.'", r"\bloop\s*\{",
+      [r"\bloop\s*\{\s*if\s+%(W)s\s*(==|>=)\s*%(W)s\.len\(\)\s*\{\s*return None"], 1)
     de = re.search(r"impl\s+(?:std::cmp::)?PartialEq\s+for\s+DomainRule\s*\{(.*?)\n\}", m, re.S)
-    if not de or len(re.findall(r"\(\s*DomainRule::\w+(?:\(\w+\))?\s*,\s*DomainRule::\w+(?:\(\w+\))?\s*\)", de.group(1))) != 4:
-        fails.append("unreadable: router/mod.rs: PartialEq for DomainRule: the four same-variant arms Any/Wildcard/Exact/Regex are not recognised")
+    if not de:
+        fails.append("router/mod.rs: impl PartialEq for DomainRule not found (the model compares Any/Wildcard/Exact/Regex variant-wise)")
+    elif len(re.findall(r"\(\s*DomainRule::\w+(?:\(\w+\))?\s*,\s*DomainRule::\w+(?:\(\w+\))?\s*\)", de.group(1))) != 4:
+        fails.append("router/mod.rs: PartialEq for DomainRule: not exactly the four same-variant arms Any/Wildcard/Exact/Regex")
     if not re.search(r"#\[derive\([^)]*PartialEq[^)]*\)\]\s*pub struct MethodRule", m):
-        fails.append("unreadable: router/mod.rs: MethodRule is no longer seen to derive PartialEq")
-    for where, src, facts in (("router/mod.rs", m, MODEL_LOOKUP_FACTS), ("router/pattern_trie.rs", t, MODEL_TRIE_FACTS)):
-        for what, ok, bad in facts:
-            _fact(fails, src, where, what, [x % dict(W=W) for x in ok], [x % dict(W=W) for x in bad])
+        fails.append("router/mod.rs: MethodRule is not seen to derive PartialEq")
+    # ---- the trie
+    ins, insr, remr = TU.fn_body(t, "insert"), TU.fn_body(t, "insert_recursive"), TU.fn_body(t, "remove_recursive")
+    F(fails, t, "pattern_trie.rs remove_recursive", "a regex subtree emptied by a removal is pruned, and only an EMPTY one (both sites)",
+      r"regexps\s*\.retain\(", [r"regexps\s*\.retain\(\|\(%(W)s, %(W)s\)\|\s*\{?\s*%(W)s\.as_str\(\)\s*!=\s*%(W)s\s*\|\|\s*!%(W)s\.is_empty\(\)\s*\}?\s*\)"], 2, soft=True)
+    F(fails, remr, "pattern_trie.rs remove_recursive", "removing a leftmost-regex host clears only that host's value",
+      r"%(W)s\.1\.key_value\s*=\s*None", [r"key_value\.is_some\(\)\s*\{\s*%(W)s\.1\.key_value\s*=\s*None"], 1)
+    F(fails, remr, "pattern_trie.rs remove_recursive", "a child emptied by the removal is pruned", r"self\.children\.remove\(",
+      [r"if\s+%(W)s\.is_empty\(\)\s*\{\s*self\.children\.remove\(%(W)s\)",
+       r"let\s+(%(W)s)\s*=\s*%(W)s\.is_empty\(\);\s*if\s+\1\s*\{\s*self\.children\.remove\(%(W)s\)"], 1)
+    F(fails, insr, "pattern_trie.rs insert_recursive", "a leftmost-regex host on an existing value-less regex node stores its value (Ok), Existing otherwise",
+      r"%(W)s\.1\.key_value\s*=\s*Some\(", [r"key_value\.is_some\(\)\s*\{\s*return InsertResult::Existing;?\s*\}\s*else\s*\{\s*%(W)s\.1\.key_value\s*=\s*Some\(\(%(W)s\.to_vec\(\),\s*%(W)s\)\);\s*return InsertResult::Ok"], 1)
+    F(fails, insr, "pattern_trie.rs insert_recursive", "an empty label is refused", r"^\s*(assert|if)",
+      [r"^\s*if\s+%(W)s\.is_empty\(\)\s*\{\s*return InsertResult::Failed"], 1)
+    F(fails, ins, "pattern_trie.rs insert", "a failed recursion answers Failed (no assertion)", r"insert_recursive\(",
+      [r"insert_recursive\([^;]*;\s*if\s+%(W)s\s*==\s*InsertResult::Failed\s*\{\s*return InsertResult::Failed",
+       r"insert_recursive\([^;]*;\s*if let InsertResult::Failed = %(W)s\s*\{\s*return InsertResult::Failed",
+       r"insert_recursive\([^;]*;\s*if matches!\(%(W)s, InsertResult::Failed\)\s*\{\s*return InsertResult::Failed"], 1)
+    # both lookups (with and without the capture trace; the resolver and has_hostname use the second)
+    for fn in ("lookup_with_path", "lookup"):
+        b = TU.fn_body(t, fn)
+        wh = "pattern_trie.rs " + fn
+        F(fails, b, wh, "falls through to the wild-card / regexes when the literal child yields nothing", r"self\.children\.get\(",
+          [r"if let Some\(%(W)s\) = self\.children\.get\(%(W)s\)\s*\{\s*if let Some\(%(W)s\) = %(W)s\." + fn + r"\([^;]*?\)\s*\{\s*return Some\(%(W)s\)"], 1, soft=(fn == "lookup_with_path"))
+        F(fails, b, wh, "tries the next matching regex when one yields nothing", r"\.is_match\(",
+          [r"\.is_match\(%(W)s\)\s*\{(?:(?!\.is_match\().)*?if let Some\(%(W)s\) = %(W)s\." + fn + r"\([^;]*?\)\s*\{\s*return Some\(%(W)s\)"], 1)
+        if b is not None:
+            cj = TU.conjuncts(b, "self.wildcard.is_some()")
+            if not cj:
+                fails.append("%s: the wild-card test (an `if` on self.wildcard.is_some()) is not found" % wh)
+            for c in cj:
+                rest = c - {"self.wildcard.is_some()", "accept_wildcard"}
+                if not ({"self.wildcard.is_some()", "accept_wildcard"} <= c and len(rest) == 1 and re.fullmatch(r"%s\.is_empty\(\)" % TU.W, next(iter(rest)))):
+                    fails.append("%s: the wild-card applies when %s; the model assumes: leftmost label only (prefix.is_empty()), a wild-card stored, wild-cards accepted" % (wh, sorted(c)))
     return fails
 
 
-# what coq/C04/Model.v and coq/Common/Trie.v mirror: (what the model assumes, patterns that establish it, patterns
-# that contradict it); %(W)s is any identifier
-MODEL_LOOKUP_FACTS = [
-    ("add_tree_rule only uses the leaf stored under the hostname itself",
-     [r"fn add_tree_rule.*?domain_lookup_mut\([^;{]*?\)\s*\.filter\(\|\(%(W)s, _\)\|\s*%(W)s(\.as_slice\(\))?\s*==\s*%(W)s\.as_bytes\(\)\)"], []),
-    ("remove_tree_rule only uses the leaf stored under the hostname itself",
-     [r"fn remove_tree_rule.*?domain_lookup_mut\([^;{]*?\)\s*\.filter\(\|\(%(W)s, _\)\|\s*%(W)s(\.as_slice\(\))?\s*==\s*%(W)s\.as_bytes\(\)\)"], []),
-    ("selection: a rule replaces the current best only when its rank is strictly greater (first of equals kept)",
-     [r"%(W)s\.is_none\(\)\s*\|\|\s*(%(W)s)\s*>\s*(%(W)s)", r"%(W)s\.is_none\(\)\s*\|\|\s*(%(W)s)\s*<\s*(%(W)s)",
-      r"\.is_none_or\(\|%(W)s\|\s*%(W)s\s*[<>]\s*\*?%(W)s\)"],
-     [r"%(W)s\.is_none\(\)\s*\|\|\s*%(W)s\s*[<>]=\s*%(W)s"]),
-    ("selection: the rank is (kind, prefix length, method) compared lexicographically",
-     [r"let\s+%(W)s\s*=\s*\(\s*%(W)s\s*,\s*%(W)s\s*,\s*%(W)s\s*\)\s*;"], []),
-    ("selection: a rule whose path does not match is skipped", [r"PathRuleResult::None\s*=>\s*continue"], []),
-    ("selection: a rule whose method does not match is skipped", [r"MethodRuleResult::None\s*=>\s*continue"], []),
-    ("remove_tree_rule drops exactly the rules with that (path, method)",
-     [r"\.retain\(\|\(%(W)s, %(W)s, _\)\|\s*%(W)s\s*!=\s*%(W)s\s*\|\|\s*%(W)s\s*!=\s*%(W)s\)",
-      r"\.retain\(\|\(%(W)s, %(W)s, _\)\|\s*!\(\s*%(W)s\s*==\s*%(W)s\s*&&\s*%(W)s\s*==\s*%(W)s\s*\)\)"],
-     [r"fn remove_tree_rule(?:(?!\n    pub fn ).)*?\.retain\(\|\(%(W)s, %(W)s, _\)\|\s*%(W)s\s*!=\s*%(W)s\s*&&"]),
-    ("add_tree_rule refuses a duplicate (path, method)",
-     [r"!\s*%(W)s\s*\.iter\(\)\s*\.any\(\|\(%(W)s, %(W)s, _\)\|\s*%(W)s\s*==\s*%(W)s\s*&&\s*%(W)s\s*==\s*%(W)s\)"], []),
-    ("lookup walks the tree accepting wild-cards", [r"\.lookup_with_path\(\s*%(W)s\s*,\s*true\s*,"], [r"fn lookup\b(?:(?!\n    pub fn ).)*?\.lookup_with_path\(\s*%(W)s\s*,\s*false\s*,"]),
-    ("add_tree_rule answers false for a hostname the trie refuses", [r"==\s*InsertResult::Failed\s*\{[^}]*return false", r"InsertResult::Failed\s*=>\s*(\{\s*)?return false"], []),
-    ("convert_regex_domain_rule stops (None) when nothing follows the last '.'", [r"if\s+%(W)s\s*==\s*%(W)s\.len\(\)\s*\{\s*return None;?\s*\}\s*if\s+%(W)s\[%(W)s\]\s*==\s*b'/'",
-                                                                                  r"if\s+%(W)s\s*>=\s*%(W)s\.len\(\)\s*\{\s*return None;?\s*\}"], []),
-]
+# facts declared soft above, and the breaking variant in an unrecognisable spelling that was seen to exit 1 through
+# the correspondence run (harmless/C04_*_unreadable_changed.diff)
+SOFT_TESTED = ["PathRule equality arms", "strict rank comparison", "remove_tree_rule retain", "regex subtree pruning",
+               "lookup_with_path fall-through"]
+
 # the documented precedence the spec (is_best / documented_choice) formalises
 DOC_PINS = [
     (r"1\. `path_type = \"EQUALS\"` — exact match wins first\.\s*2\. `path_type = \"REGEX\"`.*?3\. `path_type = \"PREFIX\"` — fall-through default\. Longest prefix wins among\s*PREFIX rules\.",
@@ -195,34 +239,6 @@ DOC_PINS = [
     (r"\*\*Configuration order does not affect routing\*\*", "the order-independence promise is gone"),
     (r"multiple\s+regex rules competing on the same authority produce undefined ordering", "regex-vs-regex is no longer documented as undefined"),
 ]
-MODEL_TRIE_FACTS = [
-    ("remove_recursive prunes a regex subtree emptied by the removal",
-     [r"\.retain\(\|\(%(W)s, %(W)s\)\|\s*%(W)s\.as_str\(\)\s*!=\s*%(W)s\s*\|\|\s*!%(W)s\.is_empty\(\)\)"], []),
-    ("remove_recursive: removing a leftmost-regex host clears only that host's value",
-     [r"key_value\.is_some\(\)\s*\{\s*%(W)s\.1\.key_value\s*=\s*None", r"key_value\.take\(\)\.is_some\(\)"], []),
-    ("insert_recursive: a leftmost-regex host on an existing value-less regex node stores its value (Ok), Existing otherwise",
-     [r"key_value\.is_some\(\)\s*\{\s*return InsertResult::Existing;?\s*\}\s*else\s*\{.*?key_value\s*=\s*Some\(\(%(W)s\.to_vec\(\),\s*%(W)s\)\);\s*return InsertResult::Ok"], []),
-    ("lookup_with_path falls through when the literal child yields nothing",
-     [r"if let Some\(%(W)s\) = self\.children\.get\(%(W)s\)\s*\{\s*if let Some\(%(W)s\) = %(W)s\.lookup_with_path\([^;]*?\)\s*\{\s*return Some\(%(W)s\)",
-      r"self\.children\.get\(%(W)s\)\s*\.and_then\(\|%(W)s\|\s*%(W)s\.lookup_with_path\("],
-     [r"Some\(%(W)s\)\s*=>\s*(return\s+)?%(W)s\.lookup_with_path\("]),
-    ("lookup_with_path tries the next matching regex when one yields nothing",
-     [r"\.is_match\(%(W)s\)\s*\{.*?if let Some\(%(W)s\) = %(W)s\.lookup_with_path\([^;]*?\)\s*\{\s*return Some\(%(W)s\)"],
-     [r"\.is_match\(%(W)s\)\s*\{(?:(?!if let Some).)*?return %(W)s\.lookup_with_path\("]),
-    ("insert answers Failed when the recursion failed", [r"==\s*InsertResult::Failed\s*\{\s*return InsertResult::Failed", r"InsertResult::Failed\s*=>\s*return InsertResult::Failed",
-                                                        r"if let InsertResult::Failed = %(W)s\s*\{\s*return InsertResult::Failed",
-                                                        r"matches!\(%(W)s, InsertResult::Failed\)\s*\{\s*return InsertResult::Failed"],
-     [r"assert_ne!\(%(W)s, InsertResult::Failed\)"]),
-    ("insert_recursive refuses an empty label", [r"if\s+%(W)s\.is_empty\(\)\s*\{\s*return InsertResult::Failed"], [r"assert_ne!\(%(W)s, &b\"\"\[\.\.\]\)"]),
-    ("lookup_with_path: the wild-card applies to the leftmost label only, when wild-cards are accepted",
-     [r"%(W)s\.is_empty\(\)\s*&&\s*self\.wildcard\.is_some\(\)\s*&&\s*accept_wildcard",
-      r"accept_wildcard\s*&&\s*%(W)s\.is_empty\(\)\s*&&\s*self\.wildcard\.is_some\(\)",
-      r"self\.wildcard\.is_some\(\)\s*&&\s*%(W)s\.is_empty\(\)\s*&&\s*accept_wildcard"], []),
-    ("remove_recursive prunes a child emptied by the removal",
-     [r"if\s+%(W)s\.is_empty\(\)\s*\{\s*self\.children\.remove\(%(W)s\)",
-      r"let\s+(%(W)s)\s*=\s*%(W)s\.is_empty\(\);\s*if\s+\1\s*\{\s*self\.children\.remove\(%(W)s\)"], []),
-]
-
 # ---------------------------------------------------------------------------
 # pools
 
@@ -414,6 +430,29 @@ def trie_case(rng, cid):
     return Case(cid, ops, dict(family="trie"))
 
 
+def regex_pair_case(rng, cid):
+    """a leftmost-regex hostname and deeper hostnames on the same regex: they share one regex node of the trie, which
+    must survive exactly as long as it holds a value or a deeper host"""
+    ids = {}
+    rx = rng.choice([b"/[a-z]+/.a.com", b"/x.*/.a.com", b"/x[0-9]/.a.com"])
+    hosts = [rx, b"w." + rx, b"v." + rx]
+    ops, added = [], []
+    for h in rng.sample(hosts, rng.randint(2, 3)):
+        for _ in range(rng.randint(1, 2)):
+            kind, pval = rng.choice(PATHS[:4])
+            f = front(ids, 2, h, kind, pval, None, "cluster")
+            ops.append(["add"] + f)
+            added.append(f)
+    probes = [["probe", h, p, b"GET"] for h in (b"xyz.a.com", b"x1.a.com", b"w.xyz.a.com", b"w.x1.a.com", b"v.xyz.a.com", b"v.x1.a.com") for p in (b"/", b"/a/b")]
+    ops += probes
+    rng.shuffle(added)
+    for f in added[:rng.randint(1, len(added))]:
+        ops.append(["del"] + f)
+        ops += probes
+    ops.append(["permcheck"])
+    return Case(cid, ops, dict(family="regexpair"))
+
+
 def with_tables(cases):
     """complete the cases with their rx rows, computed by the real regex crate"""
     if not cases:
@@ -453,7 +492,10 @@ def gen_cases(rng, tier):
         elif r < 6:
             out.append(leaf_case(rng, "l%d" % i))
         elif r < 7:
-            out.append(history_case(rng, ("r%d" if i % 20 < 10 else "i%d") % i, "regex" if i % 20 < 10 else "idn"))
+            if i % 40 == 6:
+                out.append(regex_pair_case(rng, "q%d" % i))
+            else:
+                out.append(history_case(rng, ("r%d" if i % 20 < 10 else "i%d") % i, "regex" if i % 20 < 10 else "idn"))
         elif r < 8:
             out.append(trie_case(rng, "t%d" % i))
         else:
